@@ -4,6 +4,11 @@ from vlib import hx
 TEXTS = ["5", "\"a b\"", "Some(\"x\")", "S { a: 1 }", "[1, 2]", "1.5", "'q'", "日本", "{\"k\": [1]}", ""]
 
 
+# texts in which spacing is part of what was written (inside a literal token): runs of blanks, a tab, a line break, leading and
+# trailing blanks.  A label must show them as they are: `== "a  b"` does not expect "a b"
+SPACED = ["\"a  b\"", "\"a\tb\"", "\"first\nsecond\"", "\"  lead\"", "\"trail  \"", "r\"x   y\"", "\"a \n  b\"", "'\t'", "f(\"a  b\", 1)"]
+
+
 def kind_specs(rng):
     out = []
     for n in range(0, 5):
@@ -28,6 +33,11 @@ def label_cases(rng, count):
             exp = rng.choice(["none", hx(rng.choice(TEXTS)), hx("2 entries"), hx("at least 2 element(s)")])
             cases.append("label\t%s\t%s\t%s" % (s, hx(actual), exp))
         cases.append("display\t%s" % s)
+    # every label kind with every spacing-sensitive text on the expected side and on the actual side
+    for s in specs:
+        for t in SPACED:
+            cases.append("label\t%s\t%s\t%s" % (s, hx(rng.choice(TEXTS)), hx(t)))
+            cases.append("label\t%s\t%s\t%s" % (s, hx(t), rng.choice(["none", hx(rng.choice(TEXTS))])))
     return cases
 
 
